@@ -785,6 +785,10 @@ class DirectoryRecord:
                     if not allow_duplicate:
                         raise pycdlibexception.PyCdlibInvalidInput('Failed adding duplicate name to parent')
 
+                    # The new record continues the last extent of the file, which
+                    # may already consist of several records.
+                    while self.children[index].data_continuation is not None and index + 1 < len(self.children):
+                        index += 1
                     self.children[index].data_continuation = child
                     self.children[index].file_flags |= (1 << self.FILE_FLAG_MULTI_EXTENT_BIT)
                     index += 1
